@@ -240,6 +240,10 @@ func genChan(g *simrt.Rng, e *Env, nCli, maxMsg, maxSize int, ends []int) ChanPl
 		// open+close batch
 		c.OpenClose = true
 		c.ClosePayload = hdrSize + g.IntN(200)
+		if g.Bool(0.4) {
+			c.SendCtx[0] = 1 + g.IntN(2)
+			c.SendCtxUs[0] = simrt.Pick(g, 1, 20, 300, 3000)
+		}
 		c.S2C = genMsgs(g, g.IntN(4), w, maxSize, false, false)
 		return c
 	}
@@ -337,6 +341,12 @@ func genAckRace(g *simrt.Rng, tier string) *FlowPlan {
 		if c.End == EndClientClose && g.Bool(0.7) {
 			c.ClosePayload = 1 + g.IntN(w)
 		}
+		p.Channels = append(p.Channels, c)
+	}
+	for i := g.IntN(4); i > 0; i-- { // open+close batches sent under a deadline while the write queue is contended
+		c := ChanPlan{End: EndClientClose, OpenClose: true, ClosePayload: hdrSize + g.IntN(3*w)}
+		c.SendCtx[0] = 1 + g.IntN(2)
+		c.SendCtxUs[0] = simrt.Pick(g, 1, 20, 300, 3000)
 		p.Channels = append(p.Channels, c)
 	}
 	return p
